@@ -41,6 +41,11 @@ func (*inArray) Exit(node *Node) {
 					}
 
 				string:
+					if t == nil || t.Kind() != reflect.String {
+						// Same as above: keys of the lookup map are strings, so the
+						// checked value must be known to be a string.
+						return
+					}
 					for _, a := range array.Nodes {
 						if _, ok := a.(*StringNode); !ok {
 							return
